@@ -18,7 +18,9 @@
 
 use crate::hook::{K_FETCH_ADD, K_LOAD, K_STORE, O_ACQREL, O_ACQUIRE, O_RELEASE, O_SEQCST};
 
-pub const T: usize = 2;
+/// maximal number of threads (arrays); the number in use is `VH_TN`
+pub const T: usize = 4;
+pub static mut VH_TN: usize = 2;
 /// events per thread
 pub const M: usize = 7;
 pub const NLOC: usize = 4;
@@ -102,12 +104,13 @@ fn step_after(kind: u32, operand: usize, before: usize, len: usize) -> usize {
 }
 
 /// Guesses the trace and validates it. `total` = number of events of all threads.
-pub fn guess_and_validate(len: usize, hb: bool) {
+pub fn guess_and_validate(len: usize, hb: bool, nthreads: usize) {
     unsafe {
+        VH_TN = nthreads;
         VH_TLEN = len;
         let mut total = 0usize;
         let mut t = 0;
-        while t < T {
+        while t < VH_TN {
             let c: usize = kani::any();
             kani::assume(c <= M);
             VH_TCNT[t] = c;
@@ -132,7 +135,7 @@ pub fn guess_and_validate(len: usize, hb: bool) {
                         racy: kani::any(),
                     };
                     kani::assume(e.ord <= 4 && (e.op as usize) < 4);
-                    kani::assume(e.vc[0] as usize <= 2 * M && e.vc[1] as usize <= 2 * M);
+                    kani::assume(e.vc[0] as usize <= 2 * M && e.vc[1] as usize <= 2 * M && e.vc[2] as usize <= 2 * M && e.vc[3] as usize <= 2 * M);
                     kani::assume((e.ts as usize) < total_bound());
                     kani::assume((e.loc as usize) < NLOC);
                     kani::assume(e.kind <= K_ITER);
@@ -150,7 +153,7 @@ pub fn guess_and_validate(len: usize, hb: bool) {
         }
         // timestamps are exactly 0..total (distinct across threads, dense)
         let mut t = 0;
-        while t < T {
+        while t < VH_TN {
             let mut j = 0;
             while j < M {
                 if j < VH_TCNT[t] {
@@ -158,7 +161,7 @@ pub fn guess_and_validate(len: usize, hb: bool) {
                     kani::assume((e.ts as usize) < total);
                     // distinct from every event of the later threads
                     let mut u = t + 1;
-                    while u < T {
+                    while u < VH_TN {
                         let mut k = 0;
                         while k < M {
                             if k < VH_TCNT[u] {
@@ -175,7 +178,7 @@ pub fn guess_and_validate(len: usize, hb: bool) {
         }
         // sequential consistency: `before` is the `after` of the predecessor on the same location
         let mut t = 0;
-        while t < T {
+        while t < VH_TN {
             let mut j = 0;
             while j < M {
                 if j < VH_TCNT[t] {
@@ -190,7 +193,7 @@ pub fn guess_and_validate(len: usize, hb: bool) {
                     let mut g_lr = [0u8; T];
                     let mut g_li = [0u8; T];
                     let mut u = 0;
-                    while u < T {
+                    while u < VH_TN {
                         let mut k = 0;
                         while k < M {
                             if k < VH_TCNT[u] {
@@ -220,7 +223,7 @@ pub fn guess_and_validate(len: usize, hb: bool) {
                         let is_iter = e.kind == K_ITER;
                         let joins = (is_load || is_rmw) && acq(e.ord);
                         let mut x = 0;
-                        while x < T {
+                        while x < VH_TN {
                             let v = if joins && g_lr[x] > base[x] { g_lr[x] } else { base[x] };
                             kani::assume(e.vc[x] == v);
                             // release clock of the location after this event
@@ -242,7 +245,7 @@ pub fn guess_and_validate(len: usize, hb: bool) {
                         let mut r = false;
                         if is_iter {
                             let mut x = 0;
-                            while x < T {
+                            while x < VH_TN {
                                 if x != t && g_li[x] > e.vc[x] {
                                     r = true;
                                 }
@@ -262,7 +265,7 @@ pub fn guess_and_validate(len: usize, hb: bool) {
             VH_TFINAL[l] = 0;
             let mut best: usize = 0; // ts + 1 of the latest event on l
             let mut t = 0;
-            while t < T {
+            while t < VH_TN {
                 let mut j = 0;
                 while j < M {
                     if j < VH_TCNT[t] {
@@ -328,7 +331,7 @@ pub fn end_thread(t: usize) {
 pub fn waited() -> bool {
     unsafe {
         let mut t = 0;
-        while t < T {
+        while t < VH_TN {
             let mut j = 0;
             while j < M {
                 let mut k = j + 1;
@@ -475,7 +478,7 @@ pub fn iter_access() -> usize {
 pub fn all_consumed() -> bool {
     unsafe {
         let mut t = 0;
-        while t < T {
+        while t < VH_TN {
             if VH_TCUR[t] != VH_TCNT[t] {
                 return false;
             }
@@ -493,9 +496,9 @@ pub fn finish() {
 
 /// Probes whose position lives in the trace (location ITER). Three identical types: every run of a
 /// thread's operations uses its own monomorphisation of the crate code, so that the checks *inside* the
-/// crate can be attributed: `TProbeA` = first thread, first pass (runs against a guess the other thread has
-/// not accepted yet: its in-crate checks are not believed), `TProbeB` = last thread, `TProbeC` = first
-/// thread again after the whole trace has been accepted (both exact).
+/// crate can be attributed: `TProbeA<i>` = thread i (not the last), first pass (runs against a guess the later threads have
+/// not accepted yet: its in-crate checks are not believed), `TProbeB` = last thread, `TProbeC<i>` = thread i
+/// again after the whole trace has been accepted (both exact).
 macro_rules! tprobe {
     ($name:ident) => {
         #[derive(Debug)]
@@ -523,9 +526,13 @@ macro_rules! tprobe {
         }
     };
 }
-tprobe!(TProbeA);
+tprobe!(TProbeA0);
+tprobe!(TProbeA1);
+tprobe!(TProbeA2);
 tprobe!(TProbeB);
-tprobe!(TProbeC);
+tprobe!(TProbeC0);
+tprobe!(TProbeC1);
+tprobe!(TProbeC2);
 
 /// C07, read off the validated trace (the clocks were constrained during validation from the memory
 /// orderings the real call sites used; C11 rules: a release store heads a release sequence, RMWs continue
@@ -537,7 +544,7 @@ pub fn iter_race() -> (bool, bool) {
         let mut race = false;
         let mut overlap = false;
         let mut t = 0;
-        while t < T {
+        while t < VH_TN {
             let mut j = 0;
             while j < M {
                 if j < VH_TCNT[t] && VH_TEV[t][j].kind == K_ITER {
@@ -547,7 +554,7 @@ pub fn iter_race() -> (bool, bool) {
                     }
                     // e lies strictly between two uses of the same operation of another thread
                     let mut u = 0;
-                    while u < T {
+                    while u < VH_TN {
                         if u != t {
                             let mut a = 0;
                             while a < M {
